@@ -29,7 +29,7 @@ if go test -vet=off -count=1 "$@" >/tmp/jv-seed-mut.log 2>&1; then
 fi
 say "demo with patch: FAIL (as required): $(grep -m1 -E '^\s+.*_test.go:[0-9]+:|--- FAIL' /tmp/jv-seed-mut.log | head -c 200)"
 rm -f "$WT/$DEST"; rmdir "$(dirname "$WT/$DEST")" 2>/dev/null; stub_off
-B=$(/tmp/mut/run_baseline.sh "$WT" | head -1); say "$B"
+B=$(/verif/scripts/run_baseline.sh "$WT" | head -1); say "$B"
 case "$B" in *229/229*) ;; *) say "FAIL: baseline"; cleanup; exit 1;; esac
 cd /; cleanup
 mkdir -p /verif/seeded/$NAME
